@@ -3,7 +3,7 @@
 # 1. confirms in a scratch worktree: patch applies, suite passes with it, demo fails with it and passes without it
 # 2. applies the patch to /repo, runs the property's quick check, restores /repo
 set -u
-P=$1; SRC=$2; NAME=${3:-$P}
+P=$1; SRC=$2; NAME=${3:-$P}; FEAT=${FEAT:-}
 W=/tmp/seedverify/$NAME
 rm -rf $W; mkdir -p /tmp/seedverify
 git -C /repo worktree add -q --detach $W HEAD || exit 3
@@ -28,11 +28,11 @@ PY
   fi
 }
 run_demo() {
-  if [ $demo_is_lib = 1 ]; then cargo test --offline --lib seeded_demo >> $LOG 2>&1; else cargo test --offline --test seeded_demo >> $LOG 2>&1; fi
+  if [ $demo_is_lib = 1 ]; then cargo test --offline $FEAT --lib seeded_demo >> $LOG 2>&1; else cargo test --offline $FEAT --test seeded_demo >> $LOG 2>&1; fi
 }
 echo "--- suite with patch" >> $LOG
 git apply $SRC/patch.diff || { echo "PATCH-DOES-NOT-APPLY"; exit 3; }
-cargo test --workspace --offline >> $LOG 2>&1; suite=$?
+cargo test --workspace --offline $FEAT >> $LOG 2>&1; suite=$?
 place_demo
 echo "--- demo with patch" >> $LOG
 run_demo; with=$?
@@ -43,8 +43,11 @@ run_demo; without=$?
 cd /verif
 git -C /repo worktree remove --force $W
 echo "suite_with_patch_exit=$suite demo_with_patch_exit=$with demo_without_patch_exit=$without"
-# 2. our check
-git -C /repo apply $SRC/patch.diff || exit 3
-./verif check $P --tier quick > /tmp/seedverify/$NAME.check 2>&1; rc=$?
-git -C /repo checkout -- .
+# 2. our check, against a patched scratch copy (never /repo itself)
+W2=/tmp/seedverify/$NAME-patched
+rm -rf $W2; mkdir -p $W2
+git -C /repo archive HEAD | tar -x -C $W2
+(cd $W2 && patch -p1 -s -i $SRC/patch.diff) || exit 3
+VERIF_REPO=$W2 VERIF_EVIDENCE_DIR=/tmp/seedverify/ev VERIF_WORK_TAG=seed- ./verif check $P --tier quick > /tmp/seedverify/$NAME.check 2>&1; rc=$?
+rm -rf $W2
 echo "check_exit=$rc"; grep -c "^VIOLATION" /tmp/seedverify/$NAME.check; tail -4 /tmp/seedverify/$NAME.check | cut -c1-300
